@@ -7,9 +7,12 @@ import (
 	"crypto/sha256"
 	"encoding/hex"
 	"fmt"
+	"math/big"
 	"reflect"
+	"strings"
 	"testing"
 
+	"github.com/gcash/bchd/bchec"
 	"github.com/gcash/bchutil"
 	"golang.org/x/crypto/ripemd160"
 	"pgregory.net/rapid"
@@ -308,6 +311,32 @@ func TestC01(t *testing.T) {
 				}
 			}
 		}
+		// directed: compressed public keys whose hex form lies entirely inside the CashAddr alphabet
+		// (no 'b', no '1'; about 1 key in 5000) - the only hex strings that get past the character
+		// checks of the CashAddr branch of DecodeAddress
+		if shard == 0 {
+			found := 0
+			gx, gy := pubPoint(pad32(big.NewInt(1)))
+			x, y := gx, gy
+			for k := int64(1); k < 60000 && found < pick(3, 10); k++ {
+				if k > 1 {
+					x, y = bchec.S256().Add(x, y, gx, gy)
+				}
+				h := hex.EncodeToString(serPub(x, y, 0))
+				if !strings.ContainsAny(h, "b1") {
+					found++
+					for n := range nets {
+						ok := kC01.One(ev, c01Case{Kind: akPubCompressed, KindStr: akNames[akPubCompressed], Net: n, Payload: pad32(big.NewInt(k))})
+						ev.mu.Lock()
+						ev.classes["C01:pubkey-hex-inside-cashaddr-alphabet"]++
+						ev.mu.Unlock()
+						if !ok {
+							return
+						}
+					}
+				}
+			}
+		}
 		kC01.Run(t, ev, perShard(pick(6000, 600000)))
 		{
 			var need []string
@@ -322,6 +351,7 @@ func TestC01(t *testing.T) {
 					need = append(need, fmt.Sprintf("C01:%s/%s", akNames[k], nets[n].Name))
 				}
 			}
+			need = append(need, "C01:pubkey-hex-inside-cashaddr-alphabet")
 			ev.requireClasses(need...)
 		}
 	})
